@@ -2,7 +2,8 @@
 (***************************************************************************)
 (* Trace validation for property C20.  Each line of File is one history    *)
 (* executed on the real module system:                                     *)
-(*   [id, names, nb, h (operations), obs (what the real code showed after  *)
+(*   [id, names, parts, nb, path, h (operations), obs (what the real code  *)
+(*    showed after                                                         *)
 (*    every operation: result, loader log, package.loaded, globals,        *)
 (*    registered functions)]                                               *)
 (* The reference semantics of module Require is run over h and every       *)
@@ -39,7 +40,7 @@ NoObs == [res |-> <<>>, log |-> <<>>, ld |-> <<>>, gl |-> <<>>, fl |-> <<>>, fg 
 RECURSIVE Walk(_, _, _)
 Walk(rec, st, pos) ==
     IF pos > Len(rec.h) THEN [ok |-> TRUE, pos |-> 0, field |-> "", exp |-> NoObs]
-    ELSE IF ~OpWellFormed(rec.h[pos]) THEN [ok |-> FALSE, pos |-> pos, field |-> "illformed", exp |-> NoObs]
+    ELSE IF ~OpWellFormed(st, rec.h[pos]) THEN [ok |-> FALSE, pos |-> pos, field |-> "illformed", exp |-> NoObs]
     ELSE LET r == Exec(st, rec.h[pos], pos)
              exp == Obs(r)
              f == FirstDiff(exp, rec.obs[pos])
@@ -48,7 +49,8 @@ Walk(rec, st, pos) ==
 
 Judge(rec) ==
     IF Len(rec.obs) # Len(rec.h) THEN [ok |-> FALSE, pos |-> 0, field |-> "length", exp |-> NoObs]
-    ELSE Walk(rec, InitState(rec.names, rec.nb), 1)
+    ELSE IF ~NamesWellFormed(rec.names, rec.parts) THEN [ok |-> FALSE, pos |-> 0, field |-> "illformed", exp |-> NoObs]
+    ELSE Walk(rec, InitState(rec.names, rec.parts, rec.nb, rec.path), 1)
 
 Verdict ==
     LET v == Judge(Data[idx])
